@@ -30,6 +30,32 @@ CHECKS = {
         'note': 'the blosc C codec is an in-process stub (frames must be byte-exact or it raises); the frame writer and the '
                 'reassembly state machine are the repository code; asdf is real',
     },
+    'C07': {
+        'engine': 'E1-threads',
+        'technique': 'deterministic simulation: seeded scheduler over prange tasks of the re-compiled TSC kernels, '
+                     'data-race (shared written cell) invariant, directed lost-update schedules, configuration sweep',
+        'text': 'the accept/reject decision and the stripe geometry are swept completely for ngrid 1..64 x '
+                '(default npartition for nthread 1..16, explicit npartition 1..ngrid) with particles on both sides of '
+                'every stripe boundary under static and cyclic iteration assignment; interleavings, grids, offsets and '
+                'particle sets beyond that are sampled by seeded search (serial-order, random-walk, PCT schedules). '
+                'Conflicts are detected from the access log independent of the sampled interleaving and then '
+                'converted into a concrete lost-update schedule.',
+        'design_ref': 'DESIGN.md 4 (C07), 2.2',
+        'note': 'kernels are executed from the working-tree source as Python generators (same index arithmetic, not the '
+                'same machine code); numba pool replaced by the seeded scheduler',
+    },
+    'C17': {
+        'engine': 'E1-threads',
+        'technique': 'deterministic simulation: seeded scheduler over the histogram/scatter/sort prange regions, poisoned '
+                     'allocator (two patterns), permutation + stripe-membership oracle',
+        'text': 'seeded search over particle sets biased to stripe boundaries, duplicates and the value BoxSize, all '
+                'thread counts 1..16 (incl. more threads than particles), three iteration-assignment policies and three '
+                'scheduler strategies; oracle is an independent float64 stripe computation and multiset equality; '
+                'a fifth of the cases also run the compiled kernel on real threads under the same oracle.',
+        'design_ref': 'DESIGN.md 4 (C17), 2.2',
+        'note': 'interpreted execution of the kernel source; membership tolerance of 4 ulps at stripe boundaries unless '
+                'BoxSize/npartition is a power of two',
+    },
 }
 
 NOT_APPLICABLE = {
@@ -40,5 +66,5 @@ NOT_APPLICABLE = {
            'no chunking, interleaving or fault for a simulator to vary',
     'C18': 'pure function on a finite domain of 65340 codes: complete enumeration, which is not simulation',
 }
-for _p in ('C01', 'C02', 'C03', 'C05', 'C06', 'C07', 'C08', 'C09', 'C10', 'C11', 'C12', 'C13', 'C16', 'C17', 'C19', 'C20'):
+for _p in ('C01', 'C02', 'C03', 'C05', 'C06', 'C08', 'C09', 'C10', 'C11', 'C12', 'C13', 'C16', 'C19', 'C20'):
     NOT_APPLICABLE.setdefault(_p, PENDING)
